@@ -1,3 +1,333 @@
-(* C18 — placeholder while the proofs are being written. *)
-From Coq Require Import ZArith List Bool.
+(* C18 — I/O buffers apply direction, inversion and registering exactly per bit.
+   Only statements here; proofs live in Proofs/IoP.v.  Model: Model/Io.v. *)
+From Coq Require Import ZArith List Bool Lia.
 From V.Model Require Import Bits Io.
+From V.Proofs Require Import BitsP IoP.
+Import ListNotations.
+Open Scope Z_scope.
+
+(* a sample simulation port: width 3, invert = (True, False, True), and a state of the i signals *)
+Definition ex_p : port := Port KSim (base_refs 0 3) [] [true; false; true] DBidir.
+Definition ex_st : pstate := init_pstate [ex_p] [5].
+
+(* ------------------------------------------------------------------ Buffer on a simulation port *)
+(* every width (incl. 0), every mask, every o/oe/previous state, Output and Bidir buffers:
+   port.o = o xor invert, every port.oe wire = oe, nothing else changes *)
+Theorem C18_buffer_out_spec p bd o oe st :
+  bd <> DIn -> NoDup (p_refs p) -> length (p_inv p) = length (p_refs p) ->
+  let st' := fst (buffer_comb bd p o oe st) in
+  read_cat (s_o st') (p_refs p) = Z.lxor (mask (plen p) o) (inv_mask (p_inv p)) /\
+  read_cat (s_oe st') (p_refs p) = (if Z.odd oe then 2 ^ plen p - 1 else 0) /\
+  (forall k r, nth_error (p_refs p) k = Some r ->
+     s_o st' r = xorb (Z.testbit o (Z.of_nat k)) (nthb (p_inv p) k) /\ s_oe st' r = Z.odd oe) /\
+  (forall r, ~ In r (p_refs p) -> s_o st' r = s_o st r /\ s_oe st' r = s_oe st r) /\
+  (forall r, s_i st' r = s_i st r).
+Proof.
+  intros Hbd Hnd Hlen st'. destruct (buffer_out_word p bd o oe st Hbd Hnd Hlen) as [H1 H2].
+  destruct (buffer_out_bits p bd o oe st Hbd Hnd) as (H3 & H4 & H5).
+  split; [exact H1|]. split; [exact H2|]. split; [exact H3|]. split; [exact H4|exact H5].
+Qed.
+Print Assumptions C18_buffer_out_spec.
+
+Example C18_buffer_out_example :
+  DBidir <> DIn /\ NoDup (p_refs ex_p) /\ length (p_inv ex_p) = length (p_refs ex_p) /\
+  read_cat (s_o (fst (buffer_comb DBidir ex_p 6 1 ex_st))) (p_refs ex_p) = 3 /\
+  read_cat (s_oe (fst (buffer_comb DBidir ex_p 6 1 ex_st))) (p_refs ex_p) = 7.
+Proof. split; [discriminate|]. split; [apply base_refs_nodup|]. vm_compute. auto. Qed.
+
+(* Input buffers: i = port.i xor invert, nothing is driven *)
+Theorem C18_buffer_in_spec p o oe st :
+  buffer_comb DIn p o oe st = (st, Z.lxor (read_cat (s_i st) (p_refs p)) (inv_mask (p_inv p))) /\
+  forall k, Z.testbit (snd (buffer_comb DIn p o oe st)) (Z.of_nat k) =
+            xorb (match nth_error (p_refs p) k with Some r => s_i st r | None => false end) (nthb (p_inv p) k).
+Proof. split; [apply buffer_in_word|intros; apply buffer_in_bits]. Qed.
+Print Assumptions C18_buffer_in_spec.
+
+(* Bidir buffers: while oe is set the driven value comes back on i (the two inversions cancel),
+   otherwise i = port.i xor invert *)
+Theorem C18_buffer_bidir_loopback p o oe st :
+  NoDup (p_refs p) -> length (p_inv p) = length (p_refs p) ->
+  snd (buffer_comb DBidir p o oe st) =
+    (if Z.odd oe then mask (plen p) o else Z.lxor (read_cat (s_i st) (p_refs p)) (inv_mask (p_inv p))) /\
+  forall k r, nth_error (p_refs p) k = Some r ->
+    Z.testbit (snd (buffer_comb DBidir p o oe st)) (Z.of_nat k) =
+    if Z.odd oe then Z.testbit o (Z.of_nat k) else xorb (s_i st r) (nthb (p_inv p) k).
+Proof. intros Hnd Hlen. split; [apply buffer_bidir_word; auto|intros; apply buffer_bidir_bits; auto]. Qed.
+Print Assumptions C18_buffer_bidir_loopback.
+
+Example C18_buffer_bidir_example :
+  snd (buffer_comb DBidir ex_p 6 1 ex_st) = 6 /\ snd (buffer_comb DBidir ex_p 6 0 ex_st) = 0 /\
+  snd (buffer_comb DIn ex_p 6 0 ex_st) = 0 /\ inv_mask (p_inv ex_p) = 5.
+Proof. vm_compute. auto. Qed.
+
+(* the buffer's i never exceeds the port width; an Output buffer has no i *)
+Theorem C18_buffer_i_range p bd o oe st : length (p_inv p) = length (p_refs p) ->
+  0 <= snd (buffer_comb bd p o oe st) < 2 ^ plen p.
+Proof. exact (buffer_i_range p bd o oe st). Qed.
+Print Assumptions C18_buffer_i_range.
+
+(* which (port direction, buffer direction) pairs are accepted *)
+Theorem C18_buffer_direction_check bd pd :
+  (buffer_check bd pd = Ok tt <-> (pd = bd \/ pd = DBidir)) /\
+  (buffer_check bd pd <> Ok tt -> buffer_check bd pd = Err EValue).
+Proof. split; [apply buffer_check_spec|apply buffer_check_err]. Qed.
+Print Assumptions C18_buffer_direction_check.
+
+(* ------------------------------------------------------------------ FFBuffer *)
+(* For every sequence of events evs (inputs + which domains have their edge) and every further event e:
+   - o side (Output/Bidir): after an o_domain edge the port shows exactly what the combinational Buffer
+     would show for the o/oe sampled at that edge; without the edge the port keeps its value (whatever o/oe do);
+   - i side (Input/Bidir): after an i_domain edge i is the inner buffer's i of just before the edge; without
+     the edge it holds.  So each direction has exactly one register, clocked by its own domain. *)
+Theorem C18_ffbuffer_one_stage bd p evs e st :
+  length (p_inv p) = length (p_refs p) ->
+  let s := ff_run_state bd p evs in
+  let s' := ff_run_state bd p (evs ++ [e]) in
+  (bd <> DIn ->
+     (ev_eo e = true -> fst (ff_comb bd p s' st) = fst (buffer_comb bd p (ev_o e) (ev_oe e) st)) /\
+     (ev_eo e = false -> fst (ff_comb bd p s' st) = fst (ff_comb bd p s st))) /\
+  (bd <> DOut ->
+     (ev_ei e = true -> f_i s' = snd (buffer_comb bd p (f_o s) (f_oe s) (ev_st e))) /\
+     (ev_ei e = false -> f_i s' = f_i s)) /\
+  (bd = DIn -> fst (ff_comb bd p s' st) = st) /\
+  (bd = DOut -> f_i s' = 0).
+Proof.
+  intros Hlen s s'. repeat split.
+  - intros He. apply ff_port_after_edge; auto.
+  - intros He. apply ff_port_hold; auto.
+  - intros He. unfold s'. rewrite ff_run_snoc. pose proof (ff_step_i bd p s e H Hlen) as Hs. cbn zeta in Hs.
+    rewrite He in Hs. exact Hs.
+  - intros He. unfold s'. rewrite ff_run_snoc. pose proof (ff_step_i bd p s e H Hlen) as Hs. cbn zeta in Hs.
+    rewrite He in Hs. exact Hs.
+  - intros ->. reflexivity.
+  - intros ->. unfold s'. clear s s'. generalize (evs ++ [e]) as l. clear. intros l.
+    induction l as [|x r IH] using rev_ind; [reflexivity|]. rewrite ff_run_snoc.
+    destruct (ff_step_unused DOut p (ff_run_state DOut p r) x) as [_ H2]. rewrite (H2 eq_refl). exact IH.
+Qed.
+Print Assumptions C18_ffbuffer_one_stage.
+
+(* consequence for an Input FFBuffer and for the words on the port of an Output/Bidir FFBuffer *)
+Theorem C18_ffbuffer_words bd p evs e st :
+  NoDup (p_refs p) -> length (p_inv p) = length (p_refs p) ->
+  (bd = DIn -> ev_ei e = true ->
+     f_i (ff_run_state bd p (evs ++ [e])) = Z.lxor (read_cat (s_i (ev_st e)) (p_refs p)) (inv_mask (p_inv p))) /\
+  (bd <> DIn -> ev_eo e = true ->
+     read_cat (s_o (fst (ff_comb bd p (ff_run_state bd p (evs ++ [e])) st))) (p_refs p)
+       = Z.lxor (mask (plen p) (ev_o e)) (inv_mask (p_inv p))).
+Proof.
+  intros Hnd Hlen. split.
+  - intros -> He. rewrite ff_run_snoc. pose proof (ff_step_i DIn p (ff_run_state DIn p evs) e ltac:(discriminate) Hlen) as Hs.
+    cbn zeta in Hs. rewrite He in Hs. rewrite Hs, buffer_in_word. reflexivity.
+  - intros Hbd He. rewrite ff_port_after_edge by auto.
+    destruct (buffer_out_word p bd (ev_o e) (ev_oe e) st Hbd Hnd Hlen) as [H _]. exact H.
+Qed.
+Print Assumptions C18_ffbuffer_words.
+
+Example C18_ffbuffer_example :
+  let e1 := Ev 6 1 ex_st true true in let e2 := Ev 1 0 ex_st true true in
+  f_i (ff_run_state DBidir ex_p [e1]) = 0 /\            (* first edge: o_ff was 0, disabled: i = port.i xor 5 = 0 *)
+  f_i (ff_run_state DBidir ex_p [e1; e2]) = 6 /\        (* second edge: loops back the o of the first edge *)
+  read_cat (s_o (fst (ff_comb DBidir ex_p (ff_run_state DBidir ex_p [e1]) ex_st))) (p_refs ex_p) = 3.
+Proof. vm_compute. auto. Qed.
+
+(* ------------------------------------------------------------------ port algebra *)
+Theorem C18_direction_and a b :
+  dir_and a b = dir_and b a /\ dir_and a a = Ok a /\ dir_and DBidir a = Ok a /\
+  match dir_and a b with
+  | Ok d => (d = a /\ (b = a \/ b = DBidir)) \/ (d = b /\ a = DBidir)
+  | Err e => e = EValue /\ ((a = DIn /\ b = DOut) \/ (a = DOut /\ b = DIn))
+  end.
+Proof. repeat split; [apply dir_and_comm|apply dir_and_idem|apply dir_and_bidir_l|apply dir_and_spec]. Qed.
+Print Assumptions C18_direction_and.
+
+(* ~p flips every flag and keeps wires, kind and direction; ~~p = p *)
+Theorem C18_port_invert p : wf p ->
+  port_invert p = Ok (Port (p_kind p) (p_refs p) (p_nrefs p) (map negb (p_inv p)) (p_dir p)) /\
+  bind (port_invert p) port_invert = Ok p.
+Proof. intros H. split; [apply port_invert_spec; auto|apply port_invert_involutive; auto]. Qed.
+Print Assumptions C18_port_invert.
+
+(* p + q concatenates wires and flags, narrows the direction; other kinds -> TypeError, Input+Output -> ValueError *)
+Theorem C18_port_add p q : wf p -> wf q ->
+  if negb (kind_eqb (p_kind p) (p_kind q)) then port_add p q = Err EType
+  else match dir_and (p_dir p) (p_dir q) with
+       | Err e => port_add p q = Err e
+       | Ok d => let r := Port (p_kind p) (p_refs p ++ p_refs q) (p_nrefs p ++ p_nrefs q) (p_inv p ++ p_inv q) d in
+                 port_add p q = Ok r /\ wf r
+       end.
+Proof. exact (port_add_spec p q). Qed.
+Print Assumptions C18_port_add.
+
+(* p[i]: Python index semantics (negative indices, IndexError outside [-n, n)) on wires and flags alike *)
+Theorem C18_port_index p i : wf p ->
+  let n := plen p in
+  if (i <? - n) || (n <=? i) then port_index p i = Err EIndex
+  else let j := Z.to_nat (if i <? 0 then i + n else i) in
+       exists r b, nth_error (p_refs p) j = Some r /\ nth_error (p_inv p) j = Some b /\
+         let q := Port (p_kind p) [r] (match nth_error (p_nrefs p) j with Some x => [x] | None => [] end) [b] (p_dir p) in
+         port_index p i = Ok q /\ wf q.
+Proof. exact (port_index_spec p i). Qed.
+Print Assumptions C18_port_index.
+
+(* p[a:b:s]: with (a', b', s') = slice.indices(len p), the result consists of the wires, flags (and n wires)
+   at positions a', a'+s', ... — the same positions for all of them; its length is len(range(a', b', s')).
+   Deviation from tuple semantics, inherited from Value/IOValue slicing: step 1 with start > stop raises IndexError. *)
+Theorem C18_port_slice p k : wf p ->
+  match slice_indices (plen p) k with
+  | Err e => port_slice p k = Err e /\ e = EValue /\ sl_step k = Some 0
+  | Ok (a, b, s) =>
+      if (s =? 1) && (b <? a) then port_slice p k = Err EIndex
+      else let idx := range_list a b s in
+           let q := Port (p_kind p) (sel (p_refs p) idx) (sel (p_nrefs p) idx) (sel (p_inv p) idx) (p_dir p) in
+           port_slice p k = Ok q /\ wf q /\ plen q = range_len a b s /\
+           (forall j, (j < Z.to_nat (range_len a b s))%nat ->
+              0 <= a + Z.of_nat j * s < plen p /\
+              nth_error (p_refs q) j = nth_error (p_refs p) (Z.to_nat (a + Z.of_nat j * s)) /\
+              nth_error (p_inv q) j = nth_error (p_inv p) (Z.to_nat (a + Z.of_nat j * s)))
+  end.
+Proof.
+  intros Hw. pose proof (port_slice_spec p k Hw) as H.
+  destruct (slice_indices (plen p) k) as [[[a b] s]|e] eqn:Hk.
+  - destruct ((s =? 1) && (b <? a)); auto. cbn zeta in *. destruct H as (Hq & Hwq & Hv & Hl).
+    split; [exact Hq|]. split; [exact Hwq|]. split; [exact Hl|]. intros j Hj.
+    assert (H0 : 0 <= plen p) by (unfold plen, zlen; lia).
+    split; [|split].
+    + apply (range_in_bounds (plen p) k a b s); auto. lia.
+    + cbn [p_refs]. rewrite sel_nth by exact Hv. rewrite range_list_nth by auto. reflexivity.
+    + cbn [p_inv]. destruct Hw as [Hw1 _]. rewrite sel_nth.
+      * rewrite range_list_nth by auto. reflexivity.
+      * unfold valid_idx, zlen in *. rewrite Hw1. exact Hv.
+  - split; auto. apply (slice_indices_err _ _ _ Hk).
+Qed.
+Print Assumptions C18_port_slice.
+
+(* the slicing used by ports agrees with Python's tuple slicing whenever it does not raise *)
+Theorem C18_slice_is_python {A} (l : list A) k r : hdl_slice l k = Ok r -> tuple_slice l k = Ok r.
+Proof.
+  intros H. pose proof (hdl_slice_spec l k) as S. destruct (slice_indices (zlen l) k) as [[[a b] s]|e].
+  - destruct S as [St Sh]. destruct ((s =? 1) && (b <? a)); [destruct Sh; congruence|congruence].
+  - destruct S; congruence.
+Qed.
+Print Assumptions C18_slice_is_python.
+
+(* ... and the one place where it raises although a tuple would not: x[3:1] *)
+Example C18_reversed_slice_raises :
+  port_slice ex_p (Sl (Some 3) (Some 1) None) = Err EIndex /\
+  tuple_slice (p_inv ex_p) (Sl (Some 3) (Some 1) None) = Ok [] /\
+  port_slice ex_p (Sl (Some 3) (Some 1) (Some 2)) = Ok (Port KSim [] [] [] DBidir) /\
+  port_slice ex_p (Sl None None (Some (-1))) = Ok (Port KSim [(0, 2); (0, 1); (0, 0)]%nat [] [true; false; true] DBidir) /\
+  port_slice ex_p (Sl (Some (-2)) None None) = Ok (Port KSim [(0, 1); (0, 2)]%nat [] [false; true] DBidir).
+Proof. vm_compute. repeat split. Qed.
+
+(* (p + q)[k] selects from p or from q *)
+Theorem C18_port_add_index p q r k : wf p -> wf q -> port_add p q = Ok r -> 0 <= k < plen r ->
+  exists x, port_index r k = Ok x /\ p_dir x = p_dir r /\
+    if k <? plen p
+    then exists y, port_index p k = Ok y /\ p_refs x = p_refs y /\ p_nrefs x = p_nrefs y /\ p_inv x = p_inv y
+    else exists y, port_index q (k - plen p) = Ok y /\ p_refs x = p_refs y /\ p_nrefs x = p_nrefs y /\ p_inv x = p_inv y.
+Proof. exact (port_add_index p q r k). Qed.
+Print Assumptions C18_port_add_index.
+
+(* every port built from freshly constructed base ports by any expression is well formed
+   (so the constructors' length checks never fire inside the algebra) *)
+Theorem C18_port_expressions_wf bds env e p : mk_env bds = Ok env -> peval env e = Ok p -> wf p.
+Proof. intros He Hp. apply (peval_wf env (mk_env_from_wf bds 0%nat env He) e p Hp). Qed.
+Print Assumptions C18_port_expressions_wf.
+
+Example C18_port_algebra_example :
+  wf ex_p /\ mk_env [BSim DBidir 3 [true; false; true]] = Ok [ex_p] /\
+  peval [ex_p] (PAdd (PInv (PSlice (PBase 0) (Sl (Some 1) None None))) (PIdx (PBase 0) (-3)))
+    = Ok (Port KSim [(0, 1); (0, 2); (0, 0)]%nat [] [true; false; true] DBidir).
+Proof. vm_compute. auto. Qed.
+
+(* ------------------------------------------------------------------ netlists of buffers on real ports *)
+(* For every list of buffers (any directions, any single-ended/differential ports): the netlist is produced
+   iff no I/O wire is used twice; then its IOBuffer cells are those of the buffers in order and every used wire
+   occurs in exactly one cell position; otherwise DriverConflict. *)
+Theorem C18_iobuffer_each_bit_once bufs :
+  all_wires (netlist_cells bufs) = flat_map (fun bp => used_wires (fst bp) (snd bp)) bufs /\
+  match build_netlist bufs with
+  | Ok cells => cells = netlist_cells bufs /\ NoDup (all_wires cells) /\
+                (forall r, In r (all_wires cells) -> count_occ ref_eq_dec (all_wires cells) r = 1%nat)
+  | Err e => e = EConflict /\ ~ NoDup (all_wires (netlist_cells bufs))
+  end.
+Proof. split; [apply netlist_wires|apply build_netlist_spec]. Qed.
+Print Assumptions C18_iobuffer_each_bit_once.
+
+(* the cells of one buffer: pad side = the raw wires of the port, no inversion there *)
+Theorem C18_buffer_cells_shape bd p :
+  all_wires (fst (buffer_cells bd p)) = used_wires bd p /\
+  match p_kind p with
+  | KSim => fst (buffer_cells bd p) = []
+  | KSingle => map c_port (fst (buffer_cells bd p)) = [p_refs p] /\ map c_dir (fst (buffer_cells bd p)) = [bd]
+  | KDiff => match bd with
+             | DIn => map c_port (fst (buffer_cells bd p)) = [p_refs p] /\ map c_dir (fst (buffer_cells bd p)) = [DIn]
+             | _ => map c_port (fst (buffer_cells bd p)) = [p_refs p; p_nrefs p] /\
+                    map c_dir (fst (buffer_cells bd p)) = [bd; DOut]
+             end
+  end.
+Proof. split; [apply buffer_cells_wires|apply buffer_cells_shape]. Qed.
+Print Assumptions C18_buffer_cells_shape.
+
+(* inversion on the fabric side: wire k of the port carries o[k] xor invert[k] while enabled (its n partner the
+   complement), and i[k] = pad value of wire k xor invert[k] *)
+Theorem C18_inversion_on_fabric_side bd p o oe pad k r :
+  p_kind p <> KSim -> NoDup (p_refs p ++ p_nrefs p) -> wf p -> nth_error (p_refs p) k = Some r ->
+  (bd <> DIn ->
+     pad_drive (fst (buffer_cells bd p)) o oe r =
+       (if oe then Some (xorb (Z.testbit o (Z.of_nat k)) (nthb (p_inv p) k)) else None) /\
+     (p_kind p = KDiff -> forall r', nth_error (p_nrefs p) k = Some r' ->
+        pad_drive (fst (buffer_cells bd p)) o oe r' =
+          (if oe then Some (negb (xorb (Z.testbit o (Z.of_nat k)) (nthb (p_inv p) k))) else None))) /\
+  (bd = DIn -> forall r', pad_drive (fst (buffer_cells bd p)) o oe r' = None) /\
+  (bd <> DOut ->
+     length (snd (buffer_cells bd p)) = length (p_refs p) /\
+     exists b, nth_error (snd (buffer_cells bd p)) k = Some b /\
+               ibit_value (fst (buffer_cells bd p)) pad b = xorb (pad r) (nthb (p_inv p) k)) /\
+  (bd = DOut -> snd (buffer_cells bd p) = []).
+Proof.
+  intros Hk Hnd [Hw1 Hw2] Hn. pose proof Hnd as Hnd'. apply nodup_app_iff in Hnd'. destruct Hnd' as (Hp & _ & _).
+  repeat split.
+  - apply pad_drive_p; auto.
+  - intros Hd r' Hr'. rewrite Hd in Hw2. apply pad_drive_n; auto.
+  - intros -> r'. apply pad_drive_input.
+  - destruct (buffer_cells_i bd p pad k r Hk H Hw1 Hn) as [Hl _]. exact Hl.
+  - destruct (buffer_cells_i bd p pad k r Hk H Hw1 Hn) as [_ He]. exact He.
+  - intros ->. apply buffer_cells_no_i.
+Qed.
+Print Assumptions C18_inversion_on_fabric_side.
+
+Definition ex_d : port := Port KDiff (base_refs 0 2) (base_refs 1 2) [true; false] DBidir.
+Example C18_netlist_example :
+  p_kind ex_d <> KSim /\ NoDup (p_refs ex_d ++ p_nrefs ex_d) /\ wf ex_d /\
+  build_netlist [(DBidir, ex_d)] =
+    Ok [Cell [(0, 0); (0, 1)]%nat DBidir [OB 0 true; OB 1 false]; Cell [(1, 0); (1, 1)]%nat DOut [OB 0 false; OB 1 true]] /\
+  build_netlist [(DBidir, ex_d); (DIn, ex_d)] = Err EConflict /\
+  pad_drive (fst (buffer_cells DBidir ex_d)) 1 true (0, 0)%nat = Some false /\
+  pad_drive (fst (buffer_cells DBidir ex_d)) 1 true (1, 0)%nat = Some true.
+Proof.
+  split; [discriminate|]. split; [repeat constructor; cbn; intuition congruence|].
+  split; [unfold wf; cbn; auto|]. vm_compute. auto.
+Qed.
+
+(* ------------------------------------------------------------------ finding C18-SIM-LHS-ALIAS *)
+(* The simulator's lowering of an assignment to Slice(Cat(...)) (Io.lv_assign, after _pyrtl._LHSValueCompiler)
+   is NOT the per-bit assignment used by the theorems above (and by the netlist) when the Cat repeats a signal bit,
+   even if the sliced target itself has no repeated wire: Cat(a, a[0:1])[0:1].eq(1) leaves a[0] at 0.
+   The port ((p + p[0:1])[0]) is such a target; C18_buffer_out_spec describes the simulated Buffer only for ports
+   whose underlying expression does not slice a port with a repeated wire. *)
+Theorem C18_sim_lhs_alias_refuted :
+  exists v st x r, NoDup (lv_wires v) /\ In r (lv_wires v) /\
+    assign_cat st (lv_wires v) x r = true /\ lv_assign st v x r = false.
+Proof.
+  exists (LSlice (LCat [LSig 0 2; LSlice (LSig 0 2) 0 1]) 0 1), (fun _ => false), 1, (0%nat, 0%nat).
+  split; [vm_compute; repeat constructor; intros []|]. split; [vm_compute; auto|]. split; vm_compute; reflexivity.
+Qed.
+Print Assumptions C18_sim_lhs_alias_refuted.
+
+(* without the repeated bit the two agree on the same shape of target *)
+Example C18_sim_lhs_no_alias_example :
+  let v := LSlice (LCat [LSig 0 2; LSlice (LSig 1 2) 0 1]) 1 3 in
+  forallb (fun x => forallb (fun r => Bool.eqb (lv_assign (fun _ => false) v x r) (assign_cat (fun _ => false) (lv_wires v) x r))
+                            [(0, 0); (0, 1); (1, 0); (1, 1)]%nat) [0; 1; 2; 3] = true.
+Proof. vm_compute. reflexivity. Qed.
